@@ -414,13 +414,17 @@ def pick_state(rng, ev0, complete):
 def trace_is_whole(lab, t):
     """All events of the trace, replayed, give the folder the real run left (same files, same decoded contents)."""
     from props.c05 import stages_state
-    dst = stages_state(lab, [(t["ev0"], len(t["ev0"]), None, t["f0"])])
+    dst = None
     try:
+        # (inside the try: a trace that lacks an event - a pool worker's `open` or `write` lost under load - may not even replay: the rename
+        # of a temporary file that was never created raised FileNotFoundError out of `materialise` and crashed the whole check, exit 2)
+        dst = stages_state(lab, [(t["ev0"], len(t["ev0"]), None, t["f0"])])
         return crashfs.abstract(dst)["files"] == t["full_abs"]["files"]
-    except crashfs.Unmodelled:
+    except Exception:  # noqa: BLE001  (crashfs.Unmodelled, OSError, ...)
         return False
     finally:
-        lab.cleanup(dst)
+        if dst:
+            lab.cleanup(dst)
 
 
 def stream(ctx, lab, quick):
@@ -462,6 +466,10 @@ def stream(ctx, lab, quick):
             st = fut.result()
         except crashfs.Unmodelled:
             ctx.skip("unmodelled-file")
+            continue
+        except Exception as e:  # noqa: BLE001  (replaying / snapshotting what pipefunc did must not crash the harness)
+            ctx.skip("mutres:harness-" + type(e).__name__)
+            ctx.violation(rec, f"a mutated resume could not be replayed: {type(e).__name__}: {e}"[:200], found_input=False, item="correspondence:replay", key="mutres replay")
             continue
         outcome, bad = classify(what, st)
         ctx.count("mutres:kind:" + what)
